@@ -1,0 +1,56 @@
+//go:build verif
+
+package algorithm
+
+// Machine-checked contracts for package internal/algorithm (checked by /verif/govc; comment-only file).
+
+//@ import "crypto"
+//@ import "crypto/rsa"
+//@ import "crypto/ecdsa"
+//@ import "crypto/x509"
+
+//@ spec func IsRSAKey(k any) bool { typeof(k) == type(*rsa.PublicKey) }
+//@ spec func IsECKey(k any) bool  { typeof(k) == type(*ecdsa.PublicKey) }
+//@ spec func RSABits(k any) int   { unbox(k, type(*rsa.PublicKey)).Size() * 8 }
+//@ spec func ECBits(k any) int    { unbox(k, type(*ecdsa.PublicKey)).Curve.Params().BitSize }
+
+// shape of a public key produced by x509.ParseCertificate (assumed post of the parser): typed pointers are non-nil,
+// an ECDSA key carries a curve.
+//@ spec func KeyShape(k any) bool {
+//@     (IsRSAKey(k) ==> unbox(k, type(*rsa.PublicKey)) != nil) &&
+//@     (IsECKey(k) ==> unbox(k, type(*ecdsa.PublicKey)) != nil && unbox(k, type(*ecdsa.PublicKey)).Curve != nil) }
+
+// stmt C02/C03: "RSA 2048/3072/4096 or EC P-256/384/521"
+//@ stmt spec func SupportedKey(k any) bool {
+//@     (IsRSAKey(k) && (RSABits(k) == 2048 || RSABits(k) == 3072 || RSABits(k) == 4096)) ||
+//@     (IsECKey(k) && (ECBits(k) == 256 || ECBits(k) == 384 || ECBits(k) == 521)) }
+
+// stmt C02: the table key type/size -> algorithm -> hash
+//@ stmt spec func AlgOf(t KeyType, size int) Algorithm {
+//@     if t == KeyTypeRSA && size == 2048 then AlgorithmPS256 else
+//@     if t == KeyTypeRSA && size == 3072 then AlgorithmPS384 else
+//@     if t == KeyTypeRSA && size == 4096 then AlgorithmPS512 else
+//@     if t == KeyTypeEC && size == 256 then AlgorithmES256 else
+//@     if t == KeyTypeEC && size == 384 then AlgorithmES384 else
+//@     if t == KeyTypeEC && size == 521 then AlgorithmES512 else 0 }
+//@ stmt spec func HashOf(a Algorithm) crypto.Hash {
+//@     if a == AlgorithmPS256 || a == AlgorithmES256 then crypto.SHA256 else
+//@     if a == AlgorithmPS384 || a == AlgorithmES384 then crypto.SHA384 else
+//@     if a == AlgorithmPS512 || a == AlgorithmES512 then crypto.SHA512 else 0 }
+
+//@ func (Algorithm).Hash(alg)
+//@   ensures [table] result == HashOf(alg)
+//@   pure
+
+//@ func (KeySpec).SignatureAlgorithm(k)
+//@   ensures [table] result == AlgOf(k.Type, k.Size)
+//@   pure
+
+//@ func ExtractKeySpec(signingCert)
+//@   requires signingCert != nil && KeyShape(signingCert.PublicKey)
+//@   ensures [iff] err == nil <==> SupportedKey(signingCert.PublicKey)
+//@   ensures [rsa] err == nil && IsRSAKey(signingCert.PublicKey) ==> result.Type == KeyTypeRSA && result.Size == RSABits(signingCert.PublicKey)
+//@   ensures [ec]  err == nil && IsECKey(signingCert.PublicKey) ==> result.Type == KeyTypeEC && result.Size == ECBits(signingCert.PublicKey)
+//@   ensures [alg] err == nil ==> 1 <= AlgOf(result.Type, result.Size) && AlgOf(result.Type, result.Size) <= 6
+//@   ensures [errzero] err != nil ==> result.Type == 0 && result.Size == 0
+//@   pure
